@@ -4,6 +4,7 @@ package main
 //   effect no <E> in loop <N> [except <callee>,...]
 //   effect no <E> before <callee>
 //   effect no lock-held at <callee>
+//   effect no <E> except <callee>,...   (function-wide)
 // An effect (awaits-task, may-block) is declared on contracts / libspec entries
 // and inherited through inlined callees. Channel operations have may-block.
 
@@ -203,6 +204,28 @@ func (s *Session) checkEffects() {
 						break
 					}
 					check(in)
+				}
+			}
+		case "except", "anywhere":
+			// no E except a,b  |  no E anywhere : function-wide
+			except := map[string]bool{}
+			if f[2] == "except" {
+				for _, x := range strings.Split(strings.Join(f[3:], ""), ",") {
+					except[x] = true
+				}
+			}
+			for _, b := range s.fn.Blocks {
+				for _, in := range b.Instrs {
+					if effs := s.effectsOfInstr(in, 0); effs[eff] {
+						name := "channel operation"
+						if c, ok := in.(ssa.CallInstruction); ok {
+							name = s.calleeName(c.Common())
+						}
+						if except[relSuffix(name)] {
+							continue
+						}
+						offenders = append(offenders, name+" at "+s.P.pos(in.Pos()))
+					}
 				}
 			}
 		case "at":
